@@ -21,6 +21,11 @@ impl Monitor for M {
         let big = !light && ctx.index % 400 == 7;
         let m = if ctx.index % 4 == 0 {
             gen_systematic(&mut ctx.rng, (ctx.index / 4) % SYS_PERIOD).0
+        } else if big && ctx.index % 1600 == 7 {
+            // one of the 16 largest lengths: with a storage header the message exceeds 65535 bytes
+            ctx.obs("messages.near_max_length");
+            let o = GenOpts::near_max(&mut ctx.rng);
+            gen_msg(&mut ctx.rng, &o)
         } else if big {
             let mut o = GenOpts::normal();
             o.typical_total = 65000;
@@ -120,7 +125,7 @@ impl Monitor for M {
 
     fn describe(&self, ctx: &Ctx) -> J {
         super::describe(
-            "well-formed messages (1/4 systematic layer: all flag sets, MSIN bytes, argument kinds x VARI x byte order, empty payloads; 3/4 random small messages up to 300 bytes; 1 in 400 large, up to 65535 bytes) cut at EVERY offset 0..len-1 (messages > 600 bytes: every 97th offset plus +-2 around every field boundary), through dlt_message in the message's storage mode and, for storage-header messages, dlt_consume_msg. The reference field map labels each cut (storage.pattern ... arg.value). distinct = (storage mode, payload kind, field label containing the cut); non-trivial = cut > 0",
+            "well-formed messages (1/4 systematic layer: all flag sets, MSIN bytes, argument kinds x VARI x byte order, empty payloads; 3/4 random small messages up to 300 bytes; 1 in 400 large, up to 65535 bytes, a quarter of those with one of the 16 largest declarable lengths) cut at EVERY offset 0..len-1 (messages > 600 bytes: every 97th offset plus +-2 around every field boundary), through dlt_message in the message's storage mode and, for storage-header messages, dlt_consume_msg. The reference field map labels each cut (storage.pattern ... arg.value). distinct = (storage mode, payload kind, field label containing the cut); non-trivial = cut > 0",
             &["the truncated bytes come from the crate's own serialiser; C01/C02 establish that these are the layout's bytes"],
             &[("ok.incomplete_with_hint", super::scaled(ctx, 500000)), ("ok.consume_incomplete", super::scaled(ctx, 100000)), ("cut.std.len", 1000), ("cut.arg.typeinfo", 1000), ("cut.arg.namelen", 1000), ("cut.storage.ecu", 1000), ("cut.ext.apid", 1000)],
         )
